@@ -115,6 +115,15 @@ CLAIMED = {
         note="NOT claimed: the 'within a few ulps' IEEE clause (floats are exact reals in the model). numpy/math stubs as listed.",
         tech="path-forking symbolic execution of evaluate + z3 validity against an independent exact evaluator (bounded tree size)",
         ref="DESIGN.md section 4 C05, section 8"),
+    "C16": dict(
+        text="Six bounded sub-checks on the real util functions: has_like_terms gives one answer over every permutation and "
+             "grouping of a multiset of terms that share solver-variable payloads; terms_are_like symmetric/reflexive on all "
+             "pairs of small trees; get_term_ex(parse(text)) returns the written triple over numeral pools; z3 proves "
+             "make_term(c,v,e) = c*v^e for all c,e and the triple reads back; factor(n) is the divisor-pair table for every "
+             "n in range (solver-enumerated); the term predicates raise nothing on any node of any tree up to the size bound.",
+        note="Text-based sub-check (c) uses concrete numeral pools; (e) is solver-driven enumeration of n, said plainly.",
+        tech="path-forking symbolic execution of util.* with z3 payloads + z3 equivalence for make_term (bounded)",
+        ref="DESIGN.md section 4 C16"),
 }
 
 PENDING = {}
